@@ -570,27 +570,59 @@ def r3_dfs(repo):
     R = "C19-R3"
     fi = _fn(repo, "dfs", R)
     graph, source = fi.params[:2]
-    if len(fi.nested) != 1:
-        _unknown(R, fi, "expected one nested traversal function, found %s" % sorted(fi.nested))
-    inner = list(fi.nested.values())[0]
-    if len(inner.params) != 1:
-        _unknown(R, fi, "nested traversal with %d parameters" % len(inner.params))
-    n = inner.params[0]
-    vis = _find_visited(inner.node, R, fi)
-    obs = []
+    outer_graph = graph
+    if len(fi.nested) == 1:
+        inner = list(fi.nested.values())[0]
+    else:
+        # a module-level recursive helper that dfs starts: _visit(graph, visited, vertex)
+        cands = []
+        for c in _own(fi.node):
+            if isinstance(c, ast.Call) and isinstance(c.func, ast.Name):
+                t = repo.functions.get(GU + "." + c.func.id)
+                if t is not None and any(_call_of(x, t.name) for x in ast.walk(t.node)):
+                    cands.append(t)
+        if len({t.qualname for t in cands}) != 1:
+            _unknown(R, fi, "expected one nested traversal function (or one recursive helper), found %s"
+                     % (sorted(fi.nested) or sorted({t.name for t in cands})))
+        inner = cands[0]
     rec = [c for c in ast.walk(inner.node) if _call_of(c, inner.name) and isinstance(c.func, ast.Name)]
     if not rec:
-        _unknown(R, fi, "the nested function does not recurse")
+        _unknown(R, fi, "the traversal function does not recurse")
+    vis = _find_visited(inner.node, R, fi)
+    # which parameter is the vertex: the position at which the recursion passes the edge's target / which is marked
+    marked_names = {x for _m, x in vis.marks(inner.node)}
+    vpos = [i for i, p_ in enumerate(inner.params) if p_ in marked_names]
+    if len(inner.params) == 1:
+        vpos = [0]
+    if len(vpos) != 1:
+        _unknown(R, fi, "cannot identify the vertex parameter of %s" % inner.name)
+    n = inner.params[vpos[0]]
+    if inner.outer is None:
+        # map the helper's graph parameter: the one the start call binds to dfs's graph
+        starts0 = [c for c in _own(fi.node) if _call_of(c, inner.name) and isinstance(c.func, ast.Name)]
+        if len(starts0) != 1 or len(starts0[0].args) != len(inner.params) or starts0[0].keywords:
+            _unknown(R, fi, "start call of %s" % inner.name)
+        binding = {p_: src(a) for p_, a in zip(inner.params, starts0[0].args)}
+        gpar = [p_ for p_, a in binding.items() if a == outer_graph]
+        if len(gpar) != 1:
+            _unknown(R, fi, "the helper is not given the graph")
+        graph = gpar[0]
+        # every recursive call passes graph and visited on unchanged
+        for c in rec:
+            if len(c.args) != len(inner.params) or any(src(a) != p_ for i, (p_, a) in enumerate(zip(inner.params, c.args))
+                                                       if i != vpos[0]):
+                _unknown(R, fi, "recursive call `%s` changes the graph / visited arguments" % src(c))
+    obs = []
     marks = [(m, x) for m, x in vis.marks(inner.node) if x == n]
     first_for = None
     for c in rec:
         loops = [a for a in ancestors(c) if isinstance(a, ast.For) and is_within(a, inner.node)]
-        if len(c.args) != 1 or not loops:
+        if len(c.args) != len(inner.params) or not loops:
             _unknown(R, fi, "recursive call `%s` outside a loop over the edges" % src(c))
         lp = loops[0]
         first_for = first_for or lp
         e = lp.target.id if isinstance(lp.target, ast.Name) else None
-        arg = src(c.args[0])
+        arg = src(c.args[vpos[0]])
         ok_iter = e is not None and _graph_adjacency_of(lp.iter, graph, n) and not _breaks_of(lp)
         obs.append(Ob(R, "dfs:follows-every-edge-of-the-vertex", _where(fi, lp), ok_iter,
                       "`for %s in %s`: must iterate all of %s.get(%s, ..) / %s[%s] without break"
@@ -611,7 +643,7 @@ def r3_dfs(repo):
     # form B: every target is marked when it is discovered, under the conditions of the recursive call
     formb = []
     for c in rec:
-        arg = src(c.args[0]) if c.args else "?"
+        arg = src(c.args[vpos[0]]) if len(c.args) > vpos[0] else "?"
         want = {(s, p) for s, p, t in _leaves(c)}
         formb.append(any(x == arg and {(s, p) for s, p, t in _leaves(m)} == want and
                          getattr(m, "lineno", 0) <= getattr(c, "lineno", 0)
@@ -629,7 +661,8 @@ def r3_dfs(repo):
                   "the traversal must mark `%s` unconditionally before the loop over its edges, or every target when it "
                   "is discovered (a cycle otherwise recurses for ever)" % n))
     starts = [c for c in _own(fi.node) if _call_of(c, inner.name) and isinstance(c.func, ast.Name)]
-    ok = len(starts) == 1 and [src(a) for a in starts[0].args] == [source] and not _leaves(starts[0])
+    ok = len(starts) == 1 and len(starts[0].args) > vpos[0] and src(starts[0].args[vpos[0]]) == source and \
+        not _leaves(starts[0])
     obs.append(Ob(R, "dfs:starts-at-the-source", _where(fi, starts[0] if starts else None), ok,
                   "the traversal must be started exactly once, unconditionally, with `%s`" % source))
     rets = [r for r in _own(fi.node) if isinstance(r, ast.Return)]
